@@ -4,7 +4,7 @@
    references are never retransmitted, sync frames are due whenever something is unacknowledged, and the rate
    floor keeps the credit refilling. The end-to-end "delivered before any later packet" and the bounded-time
    delivery are decided on the implementation by the reliable-order and stall oracles (partial). *)
-From UF Require Import Consts Base Frame Sender Receiver FrameQueue SendRate HalfConn HcLemmas SendRateProofs ResendKept HcTotal.
+From UF Require Import Consts Base Frame Sender Receiver FrameQueue SendRate HalfConn HcLemmas SendRateProofs ResendKept HcTotal SyncSkip.
 
 (* the scan that decides how far receive() advances the window passes a slot only if its data flag is clear *)
 Theorem C02_window_never_passes_stored_packet :
@@ -46,3 +46,14 @@ Proof. exact retransmission_kept. Qed.
 Print Assumptions C02_retransmission_kept.
 
 Check C02_window_never_passes_stored_packet.
+
+(* the sender asks the receiver to move past unreceived packets (next_packet_id of a sync frame) only when nothing is
+   scheduled for (re)transmission: resend queue and pending queue both empty (SyncSkip.v); with
+   C02_retransmission_kept an outstanding Reliable packet is therefore never skipped at the sender's request *)
+Theorem C02_sync_packet_id_only_when_idle :
+  forall h out h' out' ok, emit_sync_frame h out = (h', out', ok) ->
+  out' = out \/
+  exists nf np, out' = out ++ [Codec.write_sync nf np] /\
+    (forall id, np = Some id -> id = s_next (h_snd h) /\ h_rq h = [] /\ h_pq h = [] /\ s_next (h_snd h) <> s_base (h_snd h)).
+Proof. exact sync_packet_id_only_when_idle. Qed.
+Print Assumptions C02_sync_packet_id_only_when_idle.
